@@ -617,7 +617,7 @@ class ODataParser(Parser):
     @_('list_named_param BWS "," BWS named_param')  # type:ignore[no-redef]
     def list_named_param(self, p):
         ":meta private:"
-        return p.list_items + [p.named_param]
+        return p.list_named_param + [p.named_param]
 
     @_('ODATA_IDENTIFIER "(" BWS named_param BWS ")"')  # type:ignore[no-redef]
     def common_expr(self, p):
